@@ -1,6 +1,6 @@
 """C10 - filtering, projection, subsetting and set functions obey the collection algebra."""
 import copy, os
-from lib import driver as D
+from lib import driver as D, machine as M
 
 MUTANTS = ["takeOffByOne", "whereKeepsEmpty", "excludeSymmetric", "allIgnoresEmpty"]
 PARAMS = {"ModelFile": os.path.join(D.SPEC, "gen", "ModelResources.json"),
@@ -47,6 +47,8 @@ def run(ctx):
     by_id = {o["id"]: {k: v for k, v in o.items() if k not in ("ast", "mut")} for o in obs}
     ctx.extra["unconstrained_by_spec"] = sum(1 for v in verdicts if v.get("open"))
     keys = [(o["cs"]["f"], o["cs"]["shape"], o["cs"]["fn"], o["cs"]["a"], o["cs"]["b"], o["src"] if o["cs"]["shape"] == "sim" else "") for o in obs if o["out"]["k"] == "ok" and o["out"]["items"]]
+    # programs of the whole abstract machine whose last step is one of this property's operations (lib/machine.py)
+    verdicts = M.extend(ctx, verdicts, by_id)
     return D.finish(ctx, verdicts, by_id, evaluations=len(obs),
                     rule="13 foci (list-valued paths of MR1: complex, primitive, duplicate content, extensions, references, empty; and "
                          "environment collections) x {where, exists, where().exists(), all} x 16 criteria, select x 8 projections, "
